@@ -29,7 +29,7 @@ BROKEN = [("bad.commitatsend.seal", "SealEpochMonotone"), ("bad.commitatsend.arr
 SAFE = {"quick": ["a", "b", "c", "d", "e", "f"], "thorough": ["a", "b", "c", "d", "f", "g"]}
 # (generation cfg, TicketPending, scripts sampled); the thorough tier replays (almost) every edge of the same graphs
 GEN = {"quick": [("quick.a", False, 1500), ("quick.b", True, 1000), ("quick.c", False, 1300), ("quick.d", False, 1000), ("quick.e", False, 400)],
-       "thorough": [("quick.a", False, 22000), ("quick.b", True, 13100), ("quick.c", False, 16000), ("quick.d", False, 12800),
+       "thorough": [("quick.a", False, 16000), ("quick.b", True, 13100), ("quick.c", False, 12000), ("quick.d", False, 12800),
                     ("quick.e", False, 6300)]}
 
 VIOLATION_WHAT = {
